@@ -83,5 +83,38 @@ def mutate(rng, b):
     return bytes(b)
 
 
+def directed(rng, v, siblings=(), budget=24):
+    """Structured malformations that byte-level mutation rarely reaches: a field emptied (an alphanumeric run removed, a
+    32-bit word or a single byte zeroed), a small code walked through 0..15 at a position, a digit run inflated beyond the
+    interpreter's integer conversion limit, an absurdly large number in a date / number position, a count field zeroed, and
+    the accepted input of a sibling class (request vs response, one message type vs another)."""
+    import re
+    out = []
+    text = all(32 <= c < 127 or c in (9, 10, 13) for c in v) and len(v) > 0
+    if text:
+        runs = [m.span() for m in re.finditer(rb'[A-Za-z0-9_.-]+', v)]
+        for a, b in rng.sample(runs, min(len(runs), 6)):
+            out.append(v[:a] + v[b:])
+        digits = [m.span() for m in re.finditer(rb'[0-9]+', v)]
+        for a, b in rng.sample(digits, min(len(digits), 3)):
+            out.append(v[:a] + b'7' * 5000 + v[b:])
+            out.append(v[:a] + b'99999999999999999999' + v[b:])
+        out.append(b'99999999999999999999')
+        out.append(v.replace(b'\r\n', b'\n'))
+        out.append(v.rstrip(b'\r\n') if v.rstrip(b'\r\n') != v else v + b'\n')
+    else:
+        pos = list(range(min(len(v), 48)))
+        for i in rng.sample(pos, min(len(pos), 8)):
+            out.append(v[:i] + b'\x00' + v[i + 1:])
+            out.append(v[:i] + bytes([rng.randrange(16)]) + v[i + 1:])
+        for i in rng.sample(range(0, max(1, len(v) - 3)), min(6, max(1, len(v) - 3))):
+            out.append(v[:i] + b'\x00\x00\x00\x00' + v[i + 4:])
+            out.append(v[:i] + b'\xff\xff\xff\xff' + v[i + 4:])
+    for s in list(siblings)[:4]:
+        out.append(s)
+    rng.shuffle(out)
+    return out[:budget]
+
+
 def qualname(cls):
     return cls.__module__ + '.' + cls.__qualname__
